@@ -196,8 +196,11 @@ Fixpoint mkdir_all (f : fs) (cur : path) (cs : list name) : fs * option N :=
   end.
 
 (* `if let Some(parent) = X.parent() { create_dir_all(parent) }` for X = base.join(raw) *)
+(* create_dir_all tries mkdir on the full parent path first: a NUL byte anywhere in the PARENT is InvalidInput
+   before anything is created; a NUL in the last component only does not concern the parent *)
+Definition comps_nul (cs : list name) : bool := existsb (fun c => existsb (N.eqb 0) c) cs.
 Definition mk_parent_dirs (f : fs) (t : tgt) : fs * option N :=
-  if t_nul t then (f, Some EINVAL) else mkdir_all f (t_base t) (removelast (t_comps t)).
+  if comps_nul (removelast (t_comps t)) then (f, Some EINVAL) else mkdir_all f (t_base t) (removelast (t_comps t)).
 
 (* rename of a regular file onto a missing name or an existing file *)
 Definition os_rename_file (f : fs) (src dst : tgt) : res fs :=
